@@ -141,6 +141,16 @@ func RunFaults(t *testing.T, scn int, seed int64, n int, rec *Recorder, dir stri
 		kinds := []string{"refuse", "reset0", "garbage", "midhdr", "midbody", "midchunk", "silence", "silence", "ok"}
 		inflightOf := func() int { return w.claims() }
 		for i := 0; i < n; i++ {
+			if i == n/2 {
+				// every service is redeployed onto the same target address with another target timeout: from here on
+				// the new timeouts are the ones that count
+				for j := range svcs {
+					svcs[j].timeout += []int{500, -300, 700, -400}[j%4]
+					s := svcs[j]
+					w.execCmd(Cmd{ID: fmt.Sprintf("d%d", j+1), Kind: "deploy", Svc: fmt.Sprintf("F%d", j+1), Hosts: []string{s.host}, Targets: []string{fmt.Sprintf("raw%d", j+1)},
+						RespTimeoutMs: s.timeout, ErrorPages: s.pages, BufReq: s.buf, BufResp: s.buf, MaxMem: 512, DeployTimeoutMs: 2000, DrainTimeoutMs: 500})
+				}
+			}
 			si := rng.Intn(len(svcs))
 			s := svcs[si]
 			tn := fmt.Sprintf("raw%d", si+1)
